@@ -257,7 +257,7 @@ class Label(Factory, Container, Collection):
             else:
                 raise JsonFormatException(json, "Label.data")
 
-            return Label.ed(entries, **pairs)
+            return Label.ed(entries, pairsAsDict=pairs)
 
         raise JsonFormatException(json, "Label")
 
@@ -493,7 +493,7 @@ class UntypedLabel(Factory, Container, Collection):
             else:
                 raise JsonFormatException(json, "UntypedLabel.data")
 
-            return UntypedLabel.ed(entries, **pairs).specialize()
+            return UntypedLabel.ed(entries, pairsAsDict=pairs).specialize()
 
         raise JsonFormatException(json, "UntypedLabel")
 
